@@ -164,5 +164,5 @@ fn c04_terminator_count() {
         units += 1;
     }
     assert!(enters == units);
-    kani::cover!(units == 3, "three units");
+    kani::cover!(units * 2 == SEQ + 1, "every byte but one paired");
 }
